@@ -272,6 +272,28 @@ def oracle_c20(tier, seed, only=None, prop="C20"):
         finally:
             shutil.rmtree(tmp, ignore_errors=True)
     if only is None:
+        # several project files written by one process: each holds what ITS configuration says, nothing of an earlier one
+        try:
+            from naunet.configuration import BaseConfiguration
+            docs = []
+            for k, kw in enumerate([dict(rate_modifier={"4894": "1.0e-10"}, ode_modifier={"H": {"factors": ["f1"], "reactants": [["C"]]}}, element=["H", "C"],
+                                         binding_energy={"#CO": 1300.0}, shielding={"CO": "VB88Table"}, heating=["x"], allowed_species=["H"]),
+                                    dict(), dict(rate_modifier={"7": "2.0"}, element=["O"])]):
+                docs.append((kw, tomlkit.loads(BaseConfiguration(f"p{k}", **kw).content)))
+            cases += 1
+            for k, (kw, doc) in enumerate(docs):
+                chem = doc["chemistry"]
+                got = {"rate_modifier": {str(a): str(b) for a, b in chem["rate_modifier"].items()}, "ode_modifier": plain(chem["ode_modifier"]),
+                       "element": list(chem["element"]["elements"]), "binding_energy": {a: float(b) for a, b in chem["species"]["binding_energy"].items()},
+                       "shielding": dict(chem["shielding"]), "heating": list(chem["thermal"]["heating"]), "allowed_species": list(chem["species"]["allowed"])}
+                want = {"rate_modifier": {str(a): str(b) for a, b in kw.get("rate_modifier", {}).items()}, "ode_modifier": kw.get("ode_modifier", {}), "element": kw.get("element", []),
+                        "binding_energy": kw.get("binding_energy", {}), "shielding": kw.get("shielding", {}), "heating": kw.get("heating", []), "allowed_species": kw.get("allowed_species", [])}
+                for f_ in want:
+                    if got[f_] != want[f_]:
+                        viol.append({"property": prop, "case": "several-project-files", "what": f"project-file-{k}-{f_}: configuration {k} has {want[f_]!r}, its project file holds {got[f_]!r} (configurations written earlier by the same process: {k})",
+                                     "signature": f"{prop}:several-project-files:{f_}"})
+        except Exception as e:
+            viol.append({"property": prop, "case": "several-project-files", "what": f"raises: {type(e).__name__}: {e}", "signature": f"{prop}:several-project-files:raises"})
         c2, v2 = oracle_examples(tier, seed)
         cases += c2
         viol.extend(v2)
